@@ -232,3 +232,149 @@ Theorem C13_bin_sample_truncation_by_theorem :
        exists e : N, decode_file db0 p (firstn k sample_file) = Err e.
 Proof. exact sample_truncation_by_theorem. Qed.
 
+(* ==== the XML decoder (Proofs/XmlSafe.v), for EVERY event list: the value readers never panic and never run out of fuel; on a
+   database whose lookups succeed (every coherent one, the bundled one) xml_decode never runs out of the fuel its entry points pass
+   and panics exactly on a list that does not begin with StartDocument (the `unreachable!()` the parser can never trigger);
+   truncation: for every accepted event list, every cut inside the part the decoder consumed (i.e. before `</roblox>` was read)
+   followed by the parser's end-of-input error is an Err, cuts after it lose nothing (same DOM), and the serializer never runs
+   out of fuel on a well-formed DOM and panics only through Content::Object or a missing root.  The database hypothesis is
+   necessary (dangling superclass: Panic; cyclic chain: OutOfFuel). *)
+From RbxVerif Require Import XmlEvents XmlValues XmlFile BinPostorder XmlSafe.
+Open Scope N_scope.
+
+Theorem C13_xml_value_reader_total :
+  forall (o : xoracle) (ty : bytes) (evs : list revent),
+       match read_value_xml o ty evs with
+       | Ok (_, rest) => (Datatypes.length rest < Datatypes.length evs)%nat
+       | Err _ => True
+       | _ => False
+       end.
+Proof. exact xml_value_reader_total. Qed.
+
+Theorem C13_xml_value_reader_no_panic :
+  forall (o : xoracle) (ty : bytes) (evs : list revent),
+       read_value_xml o ty evs <> Panic /\ read_value_xml o ty evs <> OutOfFuel.
+Proof. exact xml_value_reader_no_panic. Qed.
+
+Theorem C13_xml_decode_total :
+  forall (e : xenv) (beh : dbehavior) (evs : list revent),
+       xdb_total (xe_db e) ->
+       xml_decode e beh evs <> OutOfFuel /\ (xml_decode e beh evs = Panic <-> starts_wrong evs).
+Proof. exact xml_decode_total. Qed.
+
+Theorem C13_xml_decode_no_panic :
+  forall (e : xenv) (beh : dbehavior) (r : list revent),
+       xdb_total (xe_db e) ->
+       xml_decode e beh (RStartDoc :: r) <> Panic /\ xml_decode e beh (RStartDoc :: r) <> OutOfFuel.
+Proof. exact xml_decode_no_panic. Qed.
+
+Theorem C13_xml_decode_total_coherent :
+  forall (e : xenv) (beh : dbehavior) (evs : list revent),
+       db_coherent (xe_db e) = true ->
+       xml_decode e beh evs <> OutOfFuel /\ (xml_decode e beh evs = Panic <-> starts_wrong evs).
+Proof. exact xml_decode_total_coherent. Qed.
+
+Theorem C13_xml_decode_total_bundled :
+  forall (e : xenv) (beh : dbehavior) (evs : list revent),
+       xe_db e = Database.database ->
+       xml_decode e beh evs <> OutOfFuel /\ (xml_decode e beh evs = Panic <-> starts_wrong evs).
+Proof. exact xml_decode_total_bundled. Qed.
+
+Theorem C13_xml_decode_channel_no_panic :
+  forall (e : xenv) (beh : dbehavior) (w : list wevent) (evs : list revent),
+       xdb_total (xe_db e) ->
+       channel w = Ok evs -> xml_decode e beh evs <> Panic /\ xml_decode e beh evs <> OutOfFuel.
+Proof. exact xml_decode_channel_no_panic. Qed.
+
+Theorem C13_xml_truncation_rejected :
+  forall (e : xenv) (beh : dbehavior) (evs : list revent) (d : cdom),
+       xdb_total (xe_db e) ->
+       xml_decode e beh evs = Ok d ->
+       exists (c rest : list revent) (st : dstate),
+         evs = c ++ rest /\
+         deserialize_root e beh evs = Ok (st, rest) /\
+         closed_or_enddoc evs rest /\
+         (forall k : nat,
+          (k < Datatypes.length c)%nat ->
+          exists code : N, xml_decode e beh (firstn k evs ++ [RError]) = Err code) /\
+         (forall k : nat,
+          (Datatypes.length c < k < Datatypes.length evs)%nat ->
+          xml_decode e beh (firstn k evs ++ [RError]) = Ok d) /\
+         (rest <> [] ->
+          xml_decode e beh (c ++ [RError]) = Ok d /\
+          (forall t : list revent, t <> [] -> xml_decode e beh (c ++ t) = Ok d) \/
+          (exists code : N, xml_decode e beh (c ++ [RError]) = Err code) /\
+          (exists r : list revent, rest = REndDoc :: r)).
+Proof. exact xml_truncation_rejected. Qed.
+
+Theorem C13_xml_truncation_not_ok :
+  forall (e : xenv) (beh : dbehavior) (evs : list revent) (d : cdom) (k : nat),
+       xdb_total (xe_db e) ->
+       xml_decode e beh evs = Ok d ->
+       (k < Datatypes.length evs)%nat ->
+       forall d' : cdom,
+       xml_decode e beh (firstn k evs ++ [RError]) = Ok d' ->
+       d' = d /\
+       (exists c rest : list revent,
+          evs = c ++ rest /\ (Datatypes.length c <= k)%nat /\ closed_or_enddoc evs rest).
+Proof. exact xml_truncation_not_ok. Qed.
+
+Theorem C13_xml_truncation_err_or_same :
+  forall (e : xenv) (beh : dbehavior) (evs : list revent) (d : cdom) (k : nat),
+       xdb_total (xe_db e) ->
+       xml_decode e beh evs = Ok d ->
+       (k < Datatypes.length evs)%nat ->
+       (exists code : N, xml_decode e beh (firstn k evs ++ [RError]) = Err code) \/
+       xml_decode e beh (firstn k evs ++ [RError]) = Ok d.
+Proof. exact xml_truncation_err_or_same. Qed.
+
+Theorem C13_xml_encode_total :
+  forall (e : xenv) (beh : ebehavior) (d : cdom) (ts : list tree),
+       xdb_total (xe_db e) ->
+       Forall (agrees (children_of d)) ts ->
+       xml_encode e beh d (List.map root ts) <> OutOfFuel /\
+       (xml_encode e beh d (List.map root ts) = Panic ->
+        (exists t : tree, In t ts /\ find_inst d (root t) = None) \/
+        (exists (i : inst) (k : bytes) (r : N), In i d /\ In (k, VContent (CObject r)) (i_props i))).
+Proof. exact xml_encode_total. Qed.
+
+Theorem C13_xml_decode_dangling_db_refuted :
+  xml_decode (env_of db_dangling) DIgnoreUnknown doc_one_prop = Panic.
+Proof. exact xml_decode_dangling_db_refuted. Qed.
+
+Theorem C13_xml_decode_cyclic_db_refuted :
+  xml_decode (env_of db_cyclic) DIgnoreUnknown doc_one_prop = OutOfFuel.
+Proof. exact xml_decode_cyclic_db_refuted. Qed.
+
+Theorem C13_xml_decode_unreachable_refuted :
+  forall (e : xenv) (beh : dbehavior),
+       xml_decode e beh [RStart (B "roblox") [(B "version", B "4")]; REnd (B "roblox")] = Panic.
+Proof. exact xml_decode_unreachable_refuted. Qed.
+
+Theorem C13_xml_encode_cycle_out_of_fuel_refuted :
+  xml_encode env0 EWriteUnknown
+         [{| i_ref := 1; i_parent := 1; i_class := B "Folder"; i_name := B "F"; i_props := [] |}] [1] =
+       OutOfFuel.
+Proof. exact xml_encode_cycle_out_of_fuel_refuted. Qed.
+
+Theorem C13_sample_truncation :
+  match sample_events with
+       | Ok evs =>
+           match xml_decode env_hash DReadUnknown evs with
+           | Ok d =>
+               (Datatypes.length evs =? 39)%nat &&
+               forallb
+                 (fun k : nat => res_is_err (xml_decode env_hash DReadUnknown (firstn k evs ++ [RError])))
+                 (seq 0 (Datatypes.length evs - 1)) &&
+               match
+                 xml_decode env_hash DReadUnknown (firstn (Datatypes.length evs - 1) evs ++ [RError])
+               with
+               | Ok d' => (Datatypes.length d' =? 2)%nat && (Datatypes.length d =? 2)%nat
+               | _ => false
+               end
+           | _ => false
+           end
+       | _ => false
+       end = true.
+Proof. exact sample_truncation. Qed.
+
